@@ -149,6 +149,7 @@ static int loop_side(const LatLng *v, int n, ld lat, ld lng, ld band, ld *mind_o
             ld x = ax + (lat - ay) / (by - ay) * (bx - ax);
             if (x > lng) in = !in;
         }
+        if (ax == bx && ay == by) continue; /* a vertex listed twice in a row: zero-length edge */
         ld dx = bx - ax, dy = by - ay, t = ((lng - ax) * dx + (lat - ay) * dy) / (dx * dx + dy * dy);
         if (t < 0) t = 0;
         if (t > 1) t = 1;
@@ -407,8 +408,31 @@ int vf_poly_case(uint64_t seed, vf_poly *P, int *res_out, char *desc, size_t dle
             shape = "vertices snapped to cell-centre latitudes/longitudes, ";
         }
     }
+    /* one seed in sixteen: a vertex is listed twice in a row (outer loop or a hole), or the outer ring is closed GeoJSON-style
+     * by repeating its first vertex at the end — the same point set, one zero-length edge more.  (Classes of bits 7-10 that no
+     * listed witness seed falls into; the draws come from a generator of their own, so the shape itself is unchanged.) */
+    const char *dupl = "";
+    if ((seed >> 7 & 15) == 3) {
+        vf_rng r2;
+        vf_rng_seed(&r2, seed ^ 0xD0B1ULL);
+        int hsel = P->nholes && vf_below(&r2, 3) == 0 ? (int)vf_below(&r2, (uint64_t)P->nholes) : -1;
+        LatLng **lu = hsel < 0 ? &P->outer_u : &P->hole_u[hsel], **lw = hsel < 0 ? &P->outer_w : &P->hole_w[hsel];
+        int *ln = hsel < 0 ? &P->n : &P->hn[hsel];
+        int at = hsel < 0 && vf_below(&r2, 3) == 0 ? *ln - 1 : (int)vf_below(&r2, (uint64_t)*ln); /* at == n-1 with src 0: closing vertex */
+        int closing = hsel < 0 && at == *ln - 1 && vf_below(&r2, 2);
+        LatLng *nu = malloc((size_t)(*ln + 1) * sizeof(LatLng)), *nw = malloc((size_t)(*ln + 1) * sizeof(LatLng));
+        for (int i = 0, o2 = 0; i < *ln; i++) {
+            nu[o2++] = (*lu)[i];
+            if (i == at) nu[o2++] = closing ? (*lu)[0] : (*lu)[i];
+        }
+        free(*lu), free(*lw);
+        *lu = nu, *lw = nw;
+        (*ln)++;
+        poly_finish(P);
+        dupl = closing ? "first vertex listed twice (closed ring), " : hsel < 0 ? "an outer vertex listed twice, " : "a hole vertex listed twice, ";
+    }
     *res_out = res;
-    snprintf(desc, dlen, "%sres %d,", shape, res);
+    snprintf(desc, dlen, "%s%sres %d,", shape, dupl, res);
     dlen -= strlen(desc), desc += strlen(desc);
     snprintf(desc, dlen, " %d vertices, %d hole(s), size %.2f cell widths, aspect %.4f, %s%s centre (%.4f,%.4f)", P->n, P->nholes, o.radius / w, o.aspect,
              P->crosses_antimeridian ? "crosses the antimeridian, " : "", place == 0 ? "around a pentagon," : "", o.lat0, o.lng0);
